@@ -122,9 +122,9 @@ func c09(c *core.Ctx) {
 			ok := false
 			for _, call := range calls {
 				r0 := result(call, 0)
-				if denotes(ret.Results[0], r0) || denotes(ret.Results[0], call.(ssa.Value)) {
+				if denotes(ssax.RetVal(ret, 0), r0) || denotes(ssax.RetVal(ret, 0), call.(ssa.Value)) {
 					// direct pass-through `return inst.verifyAndDecrypt(...)`: both results from the same call
-					if len(ret.Results) == 2 && denotes(ret.Results[1], errResult(call)) {
+					if len(ret.Results) == 2 && denotes(ssax.RetVal(ret, 1), errResult(call)) {
 						ok = true
 					}
 					if okEdge(ret, call) {
@@ -178,7 +178,7 @@ func c09(c *core.Ctx) {
 			detail := "every nil return follows a successful primitive"
 			n := 0
 			for _, ret := range ssax.Returns(f) {
-				if !ssax.IsNil(ret.Results[0]) {
+				if !ssax.IsNil(ssax.RetVal(ret, 0)) {
 					// returning the primitive's error directly is fine
 					continue
 				}
@@ -212,7 +212,7 @@ func c09(c *core.Ctx) {
 				// returns primitive's error directly
 				direct := false
 				for _, ret := range ssax.Returns(f) {
-					for _, o := range ssax.Origins(ret.Results[0], nil, 0) {
+					for _, o := range ssax.Origins(ssax.RetVal(ret, 0), nil, 0) {
 						if o.Call != nil && o.Call.Pkg() != nil && o.Call.Pkg().Path() == "crypto/rsa" {
 							direct = true
 						}
